@@ -266,7 +266,24 @@ def keyword_skeleton(model: Model, run: Run, folder: Folder, cname: str) -> None
         raise AnalysisError(f"{q}: description pattern not found")
     code = Lang(build(used[0].pattern, used[0].flags, "match"))
     kws: List[Tuple[str, str]] = []
-    for n in sorted((x for x in ast.walk(sfi.node) if isinstance(x, ast.JoinedStr) or (isinstance(x, ast.Constant) and isinstance(x.value, str))), key=lambda x: (x.lineno, x.col_offset)):
+
+    def literal_stream(fi_, depth: int = 0):
+        """string literals / f-strings in source order, with the literals of a module-level helper spliced in where it is called"""
+        nodes = sorted((x for x in ast.walk(fi_.node) if isinstance(x, (ast.JoinedStr, ast.Call)) or (isinstance(x, ast.Constant) and isinstance(x.value, str))),
+                       key=lambda x: (x.lineno, x.col_offset))
+        inner = {id(v) for x in nodes if isinstance(x, ast.JoinedStr) for v in ast.walk(x) if v is not x}
+        for x in nodes:
+            if isinstance(x, ast.Call):
+                if isinstance(x.func, ast.Name) and depth < 3:
+                    q_ = model.resolve_name(SCHEMA, x.func.id)
+                    hf = model.functions.get(q_) if q_ else None
+                    if hf is not None and hf.cls is None and not isinstance(hf.node, ast.Lambda) and hf is not fi_:
+                        yield from literal_stream(hf, depth + 1)
+                continue
+            if id(x) in inner and isinstance(x, ast.Constant):
+                continue
+            yield x
+    for n in literal_stream(sfi):
         text = ""
         has_value = False
         if isinstance(n, ast.JoinedStr):
